@@ -1,6 +1,7 @@
 package sim
 
 import (
+	"errors"
 	"context"
 	"encoding/json"
 	"fmt"
@@ -392,11 +393,13 @@ func (w *World) newEmptyTree(d int) (*Tree, callResult) {
 		return t, callResult{}
 	}
 	var m *mast.Mast
+	rc := w.cfg.RemoteConfig(w.kd, w.vd, w.disks[d], asNodeCache(w.cache), w.cb)
 	r := guard(func() error {
 		var err error
-		m, err = w.cfg.NewRoot().LoadMast(ctx, w.cfg.RemoteConfig(w.kd, w.vd, w.disks[d], asNodeCache(w.cache), w.cb))
+		m, err = w.cfg.NewRoot().LoadMast(ctx, rc)
 		return err
 	})
+	poisonConfig(rc)
 	t.m = m
 	t.base = NewModel(w.kd)
 	return t, r
@@ -407,12 +410,29 @@ func (w *World) loadRoot(root *mast.Root, d int, cache mast.NodeCache, p mast.Pe
 	if p == nil {
 		p = w.disks[d]
 	}
+	rc := w.cfg.RemoteConfig(w.kd, w.vd, p, cache, w.cb)
 	r := guard(func() error {
 		var err error
-		m, err = root.LoadMast(ctx, w.cfg.RemoteConfig(w.kd, w.vd, p, cache, w.cb))
+		m, err = root.LoadMast(ctx, rc)
 		return err
 	})
+	poisonConfig(rc)
 	return m, r
+}
+
+// poisonConfig overwrites a RemoteConfig after LoadMast has returned, the way a caller does who
+// reuses one config variable for the next tree with another codec: a tree is configured by what
+// its config said when it was opened.
+func poisonConfig(rc *mast.RemoteConfig) {
+	rc.Marshal = func(interface{}) ([]byte, error) {
+		return nil, errors.New("sim: RemoteConfig was changed by the caller after LoadMast returned")
+	}
+	rc.Unmarshal = func([]byte, interface{}) error {
+		return errors.New("sim: RemoteConfig was changed by the caller after LoadMast returned")
+	}
+	rc.KeyCompare = func(a, b interface{}) (int, error) {
+		return 0, errors.New("sim: RemoteConfig was changed by the caller after LoadMast returned")
+	}
 }
 
 // ---- Run ----
@@ -431,12 +451,29 @@ func RunScenario(t *testing.T, sc *Scenario) (w *World) {
 	}()
 	hang.begin(sc)
 	defer hang.end()
-	synctest.Test(t, func(t *testing.T) {
+	if p := inBubble(t, func(t *testing.T) {
 		w = NewWorld(t, sc)
 		hang.world.Store(w)
 		w.run()
-	})
+	}); p != nil {
+		panic(p)
+	}
 	return w
+}
+
+// inBubble runs f inside a synctest bubble on a goroutine of its own and hands back a panic that
+// came out of it. The testing package ends the goroutine that called synctest.Test (FailNow) as
+// soon as anything inside the bubble was marked failed — which is what a race report does in a
+// race build. The shard has to survive that: it reads the detector's log and judges the report.
+func inBubble(t *testing.T, f func(t *testing.T)) (panicked interface{}) {
+	done := make(chan struct{})
+	go func() {
+		defer close(done)
+		defer func() { panicked = recover() }()
+		synctest.Test(t, f)
+	}()
+	<-done
+	return panicked
 }
 
 func (w *World) run() {
